@@ -452,12 +452,24 @@ def r_rot_orthogonal(cx):
         return
     f = cx.f.fn(name)
     mats = []
-    for bb in sorted(f.reachable()):
-        if f.term(bb)["k"] == "return":
-            for leaf in _phi_leaves(f.local_value(0, f.end_point(bb))):
-                t = mir.strip_refs(leaf)
-                if t[0] == "agg" and t[1] == "array" and len(t[2]) == 3:
-                    mats.append(t)
+    import guards
+    import elems as E
+    rt0 = E.return_term(f)
+    if rt0 is not None:
+        # the matrix returned in exact mode, for either convention (joins selected by `exact` / `position_vector` are
+        # resolved from the branch decisions that lead to their arms)
+        for pv in (True, False):
+            m = guards.resolve(f, rt0, {("arg", 2): True, ("arg", 3): pv})
+            m = mir.strip_refs(m)
+            if m[0] == "agg" and m[1] == "array" and len(m[2]) == 3 and m not in mats:
+                mats.append(m)
+    if not mats:
+        for bb in sorted(f.reachable()):
+            if f.term(bb)["k"] == "return":
+                for leaf in _phi_leaves(f.local_value(0, f.end_point(bb))):
+                    t = mir.strip_refs(leaf)
+                    if t[0] == "agg" and t[1] == "array" and len(t[2]) == 3:
+                        mats.append(t)
     if not mats:
         cx.ob("R-ROT-ORTHOGONAL", "anchor", False, "anchor-missing: no 3x3 matrix returned")
         return
